@@ -13,6 +13,18 @@ CHECKS = {
           "DESIGN.md section 4 C02", "table agreement + who-may-call + operator identity"),
  "C03": C("Edge sets are mutated only in mirror pairs (13 call sites of 6 discovered mutators), only by CFG-generation passes, exits are exactly ecalls {10,93}, fall-through is suppressed exactly after ret/unconditional jumps. Does NOT decide that every dynamic transfer is an edge.",
           "DESIGN.md section 4 C03", "pairing + who-may-call + table rules over HIR/MIR"),
+ "C05": C("Every `impl LintPass` (11) is registered in run_diagnostics and reached from both entry points; every one of the 16 diagnostic kinds is producible by reachable code; code/title/severity tables are injective / non-empty / single-valued; each kind is located on its subject payload. Does NOT decide recall for every program and injection site.",
+          "DESIGN.md section 4 C05", "registry completeness + table rules over HIR, reachability over the MIR call graph"),
+ "C07": C("Nothing is dropped without a node or an error: the lexer yields end-of-stream only when the source is exhausted, every LexError arm of the parse loop produces nodes or a reported error followed by line recovery (reviewed silent set of three), silent variants are constructed only at their intended token arms, token-consuming loops store or report what they consume, and no successful decode path consumes a token of unestablished kind. Does NOT decide containment of a malformed line in general.",
+          "DESIGN.md section 4 C07", "arm-discipline and constructor-site rules over HIR + symbolic decode paths"),
+ "C09": C("Location triples of the three error enums bind the same payload field (31 rows); positions are created only by Lexer::get_pos and every Range::new (11 sites) takes get_pos values / start-of-earlier, end-of-later in order; index bases agree per printer (compact 1-based, pretty 0-based index + line+1, JSON 0-based). Does NOT decide the lexer's row/column arithmetic.",
+          "DESIGN.md section 4 C09", "table agreement + value provenance of constructor arguments"),
+ "C15": C("Include-stack push/pop pairing and the include directive not kept as a node; every FileReaderError maps to a ParseError on the directive's path token and a failed include does not stop parsing; sibling cross-check of FileReader::import_file impls for a live, path-dependent re-import guard. Does NOT decide equality with the pasted single file.",
+          "DESIGN.md section 4 C15", "pairing + sibling cross-check + dead-guard (fresh key) detection"),
+ "C16": C("No construction of the generic CfgError variants on paths reachable from gen_full_cfg, no placeholder (nil file / default range) location for a constructed variant, undefined/duplicate label errors built from the offending tokens under their guards.",
+          "DESIGN.md section 4 C16", "constructor-site reachability + location-table rules"),
+ "C18": C("The CLI pipeline and RVParser::run perform the same ordered steps with imports followed, diags.sort() dominates every printer call, the three severity vocabularies agree, titles non-empty and severity fixed per kind, every printer applies the base-file selection. Does NOT decide byte-level agreement of rendered output or JSON validity.",
+          "DESIGN.md section 4 C18", "sibling pipeline comparison + MIR dominance + table agreement"),
  "C06": C("Crash clause only: every arithmetic assert (overflow, division, bounds), every call to a panicking std function (#[track_caller] items queried from the compiler plus a documented list), every explicit panic and every RefCell guard held across a conflicting borrow, in all MIR bodies reachable from the lint entry points (library and CLI, incl. --yaml/--debug paths via callback edges), is either discharged by a sound rule D0-D5, exempted with a one-line reason, or reported; plus no recursion cycle. Does NOT decide termination or the time bound of the fixed-point loops.",
           "DESIGN.md section 3 G1, section 4 C06", "panic-site reachability + dominator-guard discharge + RefCell guard liveness on MIR"),
  "C17": C("Literal handling cannot crash and never narrows: G1 restricted to Imm/CsrImm parsing and the lui shift, integer casts are same-width or widening, radix table 0x/0b/decimal. Does NOT decide the value read for every spelling nor the out-of-range rejection policy.",
@@ -33,5 +45,5 @@ CHECKS = {
 NOT_APPLICABLE = {
  "C04": "precision over all convention-conforming programs is a universal over program behaviour and eleven lint conditions; no structural clause beyond tables decided under C14 and C02",
 }
-for p in ["C05","C07","C09","C10","C15","C16","C18"]:
+for p in ["C10"]:
     NOT_APPLICABLE[p] = TBD
